@@ -9,6 +9,8 @@ import (
 	"fmt"
 	"os"
 	"path/filepath"
+	"runtime/pprof"
+	"time"
 	"sort"
 	"strings"
 	"sync"
@@ -302,22 +304,123 @@ type c26Inst struct {
 	f   *c26Fix
 	all []*c26Cfg
 
+	pool   *c26Pool
+	worker int
+
 	pending []int
 	cfg     *c26Cfg
 	L       *mcLedger
+	pooled  bool
 	ref     *c26Ref
 }
 
 func (x *c26Inst) close() {
-	if x.L != nil {
+	if x.L != nil && !x.pooled {
 		x.L.Close()
-		x.L = nil
+	}
+	x.L = nil
+}
+
+// c26Pool: one in-memory ledger per BFS worker. A "fresh instance" is that
+// ledger after every WORK* record was deleted and the records of the genesis
+// load were written back; the reset is verified against the dump taken right
+// after LoadGenesis (Badger does not expose deleted keys, so the ledger is
+// indistinguishable from a new one for every reader of these records).
+type c26Pool struct {
+	c     *verifmc.Check
+	base  string // "" = in-memory ledgers, otherwise on-disk ledgers under base/w<worker>
+	mu    sync.Mutex
+	slots map[int]*c26Slot
+	reset atomic.Int64
+}
+
+type c26Slot struct {
+	L        *mcLedger
+	dir      string
+	uses     int
+	pristine map[string]string
+}
+
+func (p *c26Pool) get(worker int) *mcLedger {
+	p.mu.Lock()
+	sl := p.slots[worker]
+	// superseded versions stay in the memtable and slow every prefix scan
+	// down: start over with a new ledger now and then
+	if sl != nil && sl.uses >= 64 {
+		sl.L.Close()
+		sl = nil
+	}
+	if sl == nil {
+		dir := ""
+		if p.base != "" {
+			dir = filepath.Join(p.base, fmt.Sprintf("w%d", worker))
+			_ = os.RemoveAll(dir)
+		}
+		sl = &c26Slot{L: newMCLedger(dir), dir: dir}
+		sl.pristine = sl.L.Store.VerifDump("WORK")
+		p.slots[worker] = sl
+	}
+	p.mu.Unlock()
+	sl.uses++
+	if sl.uses == 1 {
+		return sl.L
+	}
+	db := sl.L.Store.snapshotsDB
+	err := db.Update(func(txn *badger.Txn) error {
+		opts := badger.DefaultIteratorOptions
+		opts.PrefetchValues = false
+		opts.Prefix = []byte("WORK")
+		it := txn.NewIterator(opts)
+		var keys [][]byte
+		for it.Rewind(); it.Valid(); it.Next() {
+			keys = append(keys, it.Item().KeyCopy(nil))
+		}
+		it.Close()
+		for _, k := range keys {
+			if err := txn.Delete(k); err != nil {
+				return err
+			}
+		}
+		return nil
+	})
+	if err == nil {
+		err = db.Update(func(txn *badger.Txn) error {
+			for k, v := range sl.pristine {
+				kb, _ := hex.DecodeString(k)
+				vb, _ := hex.DecodeString(v)
+				if err := txn.Set(kb, vb); err != nil {
+					return err
+				}
+			}
+			return nil
+		})
+	}
+	if err != nil {
+		panic(err)
+	}
+	now := sl.L.Store.VerifDump("WORK")
+	same := len(now) == len(sl.pristine)
+	for k, v := range sl.pristine {
+		same = same && now[k] == v
+	}
+	p.c.Require(same, "ledger reset left %d WORK records, pristine has %d", len(now), len(sl.pristine))
+	p.reset.Add(1)
+	return sl.L
+}
+
+func (p *c26Pool) closeAll() {
+	for _, sl := range p.slots {
+		sl.L.Close()
 	}
 }
 
 func (x *c26Inst) setup(cfg *c26Cfg, dir string) {
 	x.cfg, x.ref = cfg, c26NewRef()
-	x.L = newMCLedger(dir)
+	if x.pool != nil {
+		x.L, x.pooled = x.pool.get(x.worker), true
+	} else {
+		x.L = newMCLedger(dir)
+	}
 	// the snapshots of rounds 1..3 are final: their work records are written
 	// the way WriteSnapshot does it
 	err := x.L.Store.snapshotsDB.Update(func(txn *badger.Txn) error {
@@ -578,7 +681,7 @@ func c26HistNames(all []*c26Cfg, cfg *c26Cfg, hist []int) []string {
 
 // c26CrashCase: history (committed), optionally every further call with a
 // failing commit, close, reopen, AggregateMintWork's resubmission loop.
-func c26CrashCase(c *verifmc.Check, f *c26Fix, all []*c26Cfg, pt c26Point, failing bool, dir string, refused, resubmitted, attempts *atomic.Int64) {
+func c26CrashCase(c *verifmc.Check, f *c26Fix, all []*c26Cfg, pt c26Point, failing bool, pool *c26Pool, worker int, refused, resubmitted, attempts *atomic.Int64) {
 	mode := "reopen-after-commit"
 	if failing {
 		mode = "commit-fails"
@@ -587,9 +690,9 @@ func c26CrashCase(c *verifmc.Check, f *c26Fix, all []*c26Cfg, pt c26Point, faili
 	report := func(key, desc string) {
 		c.Violation(key, desc, map[string]any{"mode": mode, "history": c26HistNames(all, pt.cfg, pt.hist), "then": steps})
 	}
-	x := &c26Inst{c: c, f: f, all: all}
-	x.setup(pt.cfg, dir)
-	defer func() { x.close(); _ = os.RemoveAll(dir) }()
+	x := &c26Inst{c: c, f: f, all: all, pool: pool, worker: worker}
+	x.setup(pt.cfg, "")
+	dir := filepath.Dir(x.L.Store.VerifSnapshotsDir())
 	for _, e := range pt.hist {
 		if !x.call(e, "crash", true, report) {
 			c.Require(false, "crash case: history event %s disabled in %s", c26EventName(all, e), pt.cfg.Name)
@@ -628,11 +731,9 @@ func c26CrashCase(c *verifmc.Check, f *c26Fix, all []*c26Cfg, pt c26Point, faili
 	// restart
 	store, err := OpenForVerif(dir)
 	if err != nil {
-		c.Require(false, "reopen %s: %v", dir, err)
-		x.L = nil
-		return
+		panic(fmt.Errorf("reopen %s: %v", dir, err))
 	}
-	x.L.Store = store
+	x.L.Store = store // the pooled ledger continues on the reopened store
 	steps = append(steps, "reopen")
 	x.oracle("crash", "reopen", report)
 	off, err := store.ReadWorkOffset(f.P)
@@ -673,20 +774,27 @@ func c26CrashCase(c *verifmc.Check, f *c26Fix, all []*c26Cfg, pt c26Point, faili
 func TestMC_C26(t *testing.T) {
 	c := verifmc.Start(t, "C26", "model_checking")
 	defer c.Finish()
+	if pf := os.Getenv("C26_PROF"); pf != "" {
+		fh, _ := os.Create(pf)
+		pprof.StartCPUProfile(fh)
+		defer pprof.StopCPUProfile()
+	}
 	c.SetRule("BFS with state deduplication over all histories [fixture, call, call, ...]: fixture = (day/credit plan, signer layout) of one proposer P, three other signers and rounds 1..3 of three snapshots each around a day boundary, plus the two signer-less genesis snapshots of round 0; call = WriteRoundWork(P, round, first k snapshots of the round, credit[round]) for round 0..3, k 0..3. Calls that hit a panic of the function itself (round > offset+1, shrinking set, two days in one credited fresh batch) are executed, must panic and are not transitions; stale calls (round < offset) are transitions. State = fixture + reference (offset, submitted set, credited set) + digest of all WORK* records. Oracle in every state: ListNodeWorks(P,A,B,C,bystander) on 5 days = counters derived from the SET of snapshots handed to a non-stale credited call. Crash part: for every reference state reachable with <= n calls, on an on-disk ledger: (a) close and reopen, (b) every enabled call attempted with its commit refused through badger.VerifHook, then close and reopen; then the AggregateMintWork loop (ReadWorkOffset, ReadSnapshotWorksForNodeRound, WriteRoundWork for offset..3) with the oracle after every step")
 	c.Assume("credit is fixed per round (kernel rule day(first(r)) == day(first(r+1)), or always true as in the mainnet fork-batch exception); every non-genesis snapshot is signed by its proposer; snapshot timestamps within a chain are distinct; a refused Badger commit leaves no trace (checked) and a closed+reopened on-disk store stands for a crashed process (Badger durability itself is trusted); dedup key contains every record WriteRoundWork reads")
 
 	f := c26NewFix(c)
+	// signer layouts: menu index of the three snapshot positions (rotated by
+	// one per round). thorough: all 64; quick: the 16 rows of a strength-2
+	// orthogonal array (every pair of positions sees every pair of menu entries)
 	var layouts [][3]int
-	if c.Thorough() {
-		// strength-2 orthogonal array over the menu for the three positions
-		for a := 0; a < 4; a++ {
-			for b := 0; b < 4; b++ {
-				layouts = append(layouts, [3]int{a, b, (a + b) % 4})
+	for a := 0; a < 4; a++ {
+		for b := 0; b < 4; b++ {
+			for d := 0; d < 4; d++ {
+				if c.Thorough() || d == (a+b)%4 {
+					layouts = append(layouts, [3]int{a, b, d})
+				}
 			}
 		}
-	} else {
-		layouts = [][3]int{{0, 1, 2}, {3, 3, 1}}
 	}
 	var cfgs []*c26Cfg
 	for p := range c26Plans {
@@ -719,19 +827,24 @@ func TestMC_C26(t *testing.T) {
 	c.Set("call_sequences_le_depth_represented", seqs)
 	c.Set("max_calls", depth)
 
+	pool := &c26Pool{c: c, slots: map[int]*c26Slot{}}
+	defer pool.closeAll()
 	b := &verifmc.BFS[*c26Inst]{
 		C: c, NumEvents: len(c26Calls) + len(cfgs), MaxDepth: depth + 1,
 		EventName: func(e int) string { return c26EventName(cfgs, e) },
-		New:       func(int) *c26Inst { return &c26Inst{c: c, f: f, all: cfgs} },
+		New:       func(w int) *c26Inst { return &c26Inst{c: c, f: f, all: cfgs, pool: pool, worker: w} },
 		Apply: func(x *c26Inst, e int, replaying bool, report func(key, desc string)) bool {
 			return x.bfsApply(e, replaying, report)
 		},
 		Key:   func(x *c26Inst) string { return x.bfsKey() },
 		Close: func(x *c26Inst) { x.close() },
 	}
+	tb := time.Now()
 	states, trans, _, exhausted := b.Run()
+	fmt.Printf("C26-TIMING bfs %v\n", time.Since(tb))
 	c.Set("bfs_states", states)
 	c.Set("bfs_transitions", trans)
+	c.Set("ledger_resets_verified", pool.reset.Load())
 	if !exhausted && !c.Expired("bfs") {
 		c.Capped(fmt.Sprintf("BFS frontier not empty after %d calls", depth))
 	}
@@ -747,9 +860,8 @@ func TestMC_C26(t *testing.T) {
 	}
 	cdepth := verifmc.Pick(c, 2, 3)
 	var ccfgs []*c26Cfg
-	step := verifmc.Pick(c, len(layouts), 4)
-	for i := 0; i < len(cfgs); i += step {
-		// quick: first layout of every plan; thorough: four layouts per plan
+	// quick: layout 1,2,3 of every plan; thorough: four layouts per plan
+	for i := 6; i < len(cfgs); i += len(layouts) / verifmc.Pick(c, 1, 4) {
 		ccfgs = append(ccfgs, cfgs[i])
 	}
 	var points []c26Point
@@ -759,10 +871,14 @@ func TestMC_C26(t *testing.T) {
 	c.Set("crash_fixtures", len(ccfgs))
 	c.Set("crash_points", len(points))
 	var refused, resubmitted, attempts atomic.Int64
+	dpool := &c26Pool{c: c, base: filepath.Join(scratch, "c26-crash"), slots: map[int]*c26Slot{}}
+	tc := time.Now()
 	c.ParallelN(2*len(points), "crash cases", func(w, i int) {
-		dir := filepath.Join(scratch, fmt.Sprintf("c26-crash-%d", i))
-		c26CrashCase(c, f, cfgs, points[i/2], i%2 == 1, dir, &refused, &resubmitted, &attempts)
+		c26CrashCase(c, f, cfgs, points[i/2], i%2 == 1, dpool, w, &refused, &resubmitted, &attempts)
 	})
+	dpool.closeAll()
+	_ = os.RemoveAll(dpool.base)
+	fmt.Printf("C26-TIMING crash %v\n", time.Since(tc))
 	c.Set("crash_commits_refused", refused.Load())
 	c.Set("crash_restarts_resubmitting_a_recorded_set", resubmitted.Load())
 	if !c.Expired("crash cases") {
